@@ -52,6 +52,8 @@ def member_write_delta(p, e, item):
 
 def run(ctx):
     ctx.rule_texts.update(RULES)
+    from ..idioms import check_overflow_profile
+    check_overflow_profile(ctx)
     ctx.assumptions += ["A-ATOMIC", "A-PRIMS: SnapshotMap/SnapshotItem(save|update|remove)(.., height) record the previous value once "
                         "per block under Strategy::EveryBlock; may_load_at_height(h) returns the value at the start of block h",
                         "A-OVF: u64 arithmetic on totals aborts on overflow"]
